@@ -20,7 +20,7 @@ def handleProg (is : List Instruction) (out : Sexp) : CaseResult :=
   -- the specification evaluated on the implementation's output
   let specTags : List String × Bool × Bool :=
     match out with
-    | .list [.atom "out", r, m] =>
+    | .list [.atom "out", r, m, again] =>
       -- "gives the same program with or without a source map"
       let sameMap : Bool := match r, m with
         | .list [.atom "ok", a], .list [.atom "ok", b, _] => a == b
@@ -53,17 +53,22 @@ def handleProg (is : List Instruction) (out : Sexp) : CaseResult :=
           -- measurement arm does not rewrite
           let formalElsewhere := p.cals.mcals.any (fun c =>
             c.instructions.any (fun i => !formalCoveredB c.identifier.target i))
-          let kf := !faithful && agree && formalElsewhere && sameMap && hoisted && fix && kept && declsIn
+          -- a fixpoint is not changed by a second expansion (unless the expansion itself hoisted new calibrations)
+          let newCals := defs.filter (fun d => match d with
+            | .calibrationDefinition _ _ | .measureCalibrationDefinition _ _ => true | _ => false)
+          let idem := again == .atom "same" || newCals.length != p.cals.cals.length + p.cals.mcals.length
+          let kf := !faithful && agree && formalElsewhere && sameMap && hoisted && fix && kept && declsIn && idem
           ((if sameMap then [] else ["FAIL-with-map-differs"]) ++
            (if hoisted then [] else ["FAIL-definition-left-in-body"]) ++
            (if fix then [] else ["FAIL-not-a-fixpoint"]) ++
            (if kept then [] else ["FAIL-unmatched-not-kept"]) ++
            (if declsIn then [] else ["FAIL-declaration-not-hoisted"]) ++
+           (if idem then [] else ["FAIL-second-expansion-differs"]) ++
            (if faithful then [] else ["FAIL-not-the-specified-substitution"]) ++
            (if kf then ["kf:C17/formal-target-in-other-instructions"] else []) ++
            (if defs.length > p.definitions.length then ["hoisted-new-definition"] else []) ++
            outKindTags { instructions := body },
-           sameMap && hoisted && fix && kept && declsIn && faithful, true)
+           sameMap && hoisted && fix && kept && declsIn && idem && faithful, true)
       | .list [.atom "recursive", _] => (["recursive"], sameMap, true)
       | _ => (["impl-error"], false, true)
     | _ => (["undecodable-output"], false, false)
